@@ -137,12 +137,12 @@ func PrimitiveTypeFromJSONSchemaType(
 
 			if removeMin {
 				*minimum = nil
-				*exclusiveMaximum = nil
+				*exclusiveMinimum = nil
 			}
 
 			if removeMax {
 				*maximum = nil
-				*exclusiveMinimum = nil
+				*exclusiveMaximum = nil
 			}
 		}
 
@@ -178,12 +178,16 @@ func getMinIntType(
 		minimum, maximum, exclusiveMinimum, exclusiveMaximum,
 	)
 
+	// The normalized bounds may point at the schema's own numbers, which the
+	// validators read later: adjust copies, never the originals.
 	if nExclusiveMin && nMin != nil {
-		*nMin += 1.0
+		adjusted := *nMin + 1.0
+		nMin = &adjusted
 	}
 
 	if nExclusiveMax && nMax != nil {
-		*nMax -= 1.0
+		adjusted := *nMax - 1.0
+		nMax = &adjusted
 	}
 
 	if nMin != nil && *nMin >= 0 {
